@@ -23,6 +23,33 @@ def case(d):
         p = family.member_of(d, violating=1.0, opts={"force": ("define",), "small": True}, only=("P01", "P02", "P03"))
     elif k == 2:
         p = family.member_of(d, violating=0.0, ftype="c", opts={"force": ("global",), "small": True})   # Notice-only files
+    elif k == 6:
+        # a diagnostic that depends on a statement far away in the file (what is remembered must not depend on the options):
+        # a declaration 16 or 40 comment lines in front of the include guard, or a comment at the end of a very long function
+        if d.bool():
+            from . import c14
+            from .. import prog as _prog
+            h = _prog.gen_h(d, {"small": True})
+            p = c14.variant(h, "G5", 7 * d.choice([7, 8])) or h
+            p.variant = ("far", "stray-declaration")
+        else:
+            base = family.member_of(d, violating=0.0, ftype="c", opts={"small": True})
+            lines = base.text.split("\n")
+            closes = [i for i, l in enumerate(lines) if l == "}"]
+            at = closes[d.int(0, len(closes) - 1)]
+            body = ["\tft_step(%d);" % n for n in range(d.int(33, 60))] + ["\twhile (1)", "\t{", "\t\t// no way out", "\t\tft_step(0);", "\t}"]
+            k0 = at
+            while k0 > 0 and lines[k0 - 1].startswith("\treturn"):
+                k0 -= 1
+            lines[k0:k0] = body
+
+            class QL:
+                pass
+            p = QL()
+            p.name, p.text, p.variant, p.lines = base.name, "\n".join(lines), ("far", "long-function"), []
+    elif k <= 5:
+        # full-size files (long functions, up to five of them): whatever a rule remembers or looks back at has to be there under every option
+        p = family.member_of(d, violating=0.8, prefer=("K01", "K02", "K03", "E01", "E03", "E07", "F06", "X01", "X01c", "S10", "S11", "D01", "D08"))
     else:
         p = family.member_of(d, violating=0.7, opts={"small": True})
     if d.bool(0.25):
@@ -61,7 +88,7 @@ def case(d):
         p = q
     sets = []
     for _ in range(d.int(3, 6)):
-        o = {"colors": d.bool(0.5), "fmt": d.choice([None, "humanized", "json"]), "o": d.bool(0.3), "debug": d.weighted([(4, 0), (2, 1), (1, 2)]),
+        o = {"colors": d.bool(0.5), "fmt": d.choice([None, "humanized", "json"]), "o": d.bool(0.3), "debug": d.weighted([(4, 0), (2, 1), (2, 2)]),
              "R": d.weighted([(4, None), (2, "CheckForbiddenSourceHeader"), (1, "Foo"), (2, "CheckDefine"), (1, "CheckDefines"), (1, "NoCheckDefine"), (1, "checkdefine"),
                                    (1, "CheckDefine,CheckForbiddenSourceHeader"), (1, "Check")]), "inline": d.bool(0.3)}
         sets.append(o)
@@ -89,10 +116,14 @@ def argv_of(o, name, text):
 def parse(res, fmt):
     """-> (verdict, frozenset of diags) or None when the run did not reach a verdict"""
     if fmt == "json":
-        line = [l for l in res.out.split("\n") if l.startswith('{"files"')]
-        if not line:
+        # (debug dumps share the stream and need not end with a line break: the report is looked for anywhere, last occurrence)
+        at = res.out.rfind('{"files"')
+        if at < 0:
             return None
-        data = json.loads(line[-1])
+        try:
+            data = json.loads(res.out[at:].split("\n")[0])
+        except ValueError:
+            return None
         if len(data["files"]) != 1:
             return ("files=%d" % len(data["files"]), frozenset())
         f = data["files"][0]
@@ -116,7 +147,7 @@ def check(camp, p, sets, cli=adapters.forked_cli):
             camp.case(text, False)
             camp.count("not-analysed-to-a-verdict")
             return
-        define_lines = {i + 1 for i, ln in enumerate(p.lines) if ln.kind == "define"} if p.lines else {i + 1 for i, l in enumerate(text.split("\n")) if l.lstrip("# ").startswith("define")}
+        define_lines = {i + 1 for i, ln in enumerate(p.lines) if ln.kind == "define"} if p.lines else {i + 1 for i, l in enumerate(text.replace("\r\n", "\n").replace("\r", "\n").split("\n")) if l.lstrip("# ").startswith("define")}   # (lines as the tool numbers them: CR and CR-LF end a line too)
         for o in sets:
             res = cli(argv_of(o, name, text), dname)
             ndiff = sum([o["colors"], o["fmt"] is not None, o["o"], o["debug"] > 0, o["R"] is not None, o["inline"]])
@@ -201,7 +232,7 @@ def run(pid, tier, seed):
         out = 'x\n{"files":[{"path":"/a/b.c","status":"OK","errors":[{"name":"N","text":"t","level":"Notice","highlights":[{"lineno":1,"column":2,"length":null,"hint":null}]}]}]}\n'
     if parse(R, "json") != ("OK", frozenset({("Notice", "N", 1, 2)})):
         raise core.HarnessError("json parser self-test failed")
-    shards, n, real_every = (16, 30, 15) if tier == "quick" else (16, 250, 10)
+    shards, n, real_every = (16, 50, 25) if tier == "quick" else (16, 300, 10)
     camp = core.Campaign()
     for name, rc in core.regress_cases(pid):
         for k, what in replay(pid, rc["case"]):
